@@ -32,10 +32,16 @@ pub struct Mon {
     pub undelegated: BTreeMap<u64, (u64, u128)>,
     pub released_snap: BTreeMap<u64, basset::hub::UnbondHistoryResponse>,
     pub last_processed: u64,
+    /// the unbonding period in force: the instantiated value, changed only by a committed
+    /// UpdateParams that names the field (E2: the chain's unbonding time equals it)
+    pub unbonding_model: Option<u64>,
     pub last_undelegation_time: Option<u64>,
     pub legacy_claims: bool,
     // ---- rewards ledger (C14, C15)
     pub delivered: u128,
+    /// reward coins that reached the reward contract since the last index update that had
+    /// holders to distribute to (bank growth + payouts; independent of the contract's own record)
+    pub undistributed: u128,
     pub claimed: u128,
     pub index_updates: u64,
     pub holders_seen: BTreeSet<String>,
